@@ -159,6 +159,11 @@ type c16Batch struct {
 	begin, end int64
 	trigger    string // threshold | tick | quit | flush | wait | other
 	bad        string // non-empty: the callback received something that is not a task
+	// reread reads the slice the callback was handed (kept, not copied) once more; the
+	// monitor calls it after the scenario's last Wait. A batch handed to execute belongs to
+	// execute (it may record it or queue it to a worker): the library must not write to it
+	// or reuse its backing array afterwards.
+	reread func() ([]c16Task, string)
 }
 
 type c16Add struct {
@@ -176,7 +181,7 @@ type c16WaitRec struct {
 type c16Container struct {
 	tasks []c16Task
 	max   int
-	exec  func([]c16Task, string)
+	exec  func([]c16Task, string, func() ([]c16Task, string))
 }
 
 func (c *c16Container) AddTask(task any) bool {
@@ -187,10 +192,10 @@ func (c *c16Container) AddTask(task any) bool {
 func (c *c16Container) Execute(tasks any) {
 	ts, ok := tasks.([]c16Task)
 	if !ok {
-		c.exec(nil, fmt.Sprintf("Execute received %T", tasks))
+		c.exec(nil, fmt.Sprintf("Execute received %T", tasks), nil)
 		return
 	}
-	c.exec(ts, "")
+	c.exec(ts, "", func() ([]c16Task, string) { return ts, "" })
 }
 
 func (c *c16Container) RemoveAll() any {
@@ -256,7 +261,7 @@ func c16New(cfg c16Cfg, hook func(*c16Batch)) *c16Sys {
 	case "bulk":
 		be := NewBulkExecutor(func(tasks []any) {
 			ts, bad := c16FromAny(tasks)
-			s.onExecute(ts, bad)
+			s.onExecute(ts, bad, func() ([]c16Task, string) { return c16FromAny(tasks) })
 		}, c16BulkOpts(cfg)...)
 		s.pe = be.executor
 		s.addFn = func(t c16Task) { _ = be.Add(t) }
@@ -264,7 +269,7 @@ func c16New(cfg c16Cfg, hook func(*c16Batch)) *c16Sys {
 	case "chunk":
 		ce := NewChunkExecutor(func(tasks []any) {
 			ts, bad := c16FromAny(tasks)
-			s.onExecute(ts, bad)
+			s.onExecute(ts, bad, func() ([]c16Task, string) { return c16FromAny(tasks) })
 		}, c16ChunkOpts(cfg)...)
 		s.pe = ce.executor
 		s.addFn = func(t c16Task) { _ = ce.Add(t, t.Size) }
@@ -279,9 +284,9 @@ func c16New(cfg c16Cfg, hook func(*c16Batch)) *c16Sys {
 	return s
 }
 
-func (s *c16Sys) onExecute(tasks []c16Task, bad string) {
+func (s *c16Sys) onExecute(tasks []c16Task, bad string, reread func() ([]c16Task, string)) {
 	atomic.AddInt32(&s.inExec, 1)
-	b := &c16Batch{tasks: append([]c16Task(nil), tasks...), bad: bad}
+	b := &c16Batch{tasks: append([]c16Task(nil), tasks...), bad: bad, reread: reread}
 	b.trigger = s.trigger()
 	b.begin = vk.Seq()
 	if s.hook != nil {
@@ -514,6 +519,7 @@ type c16Stats struct {
 	tasks, batches int
 	byTrigger      map[string]int
 	waitsChecked   int // (wait, task) pairs with a happens-before edge that were checked
+	keptChecked    int // batches whose kept slice was read again after the last Wait
 	order          string
 }
 
@@ -557,6 +563,22 @@ func c16Verify(m *vk.M, desc string, cfg c16Cfg, o c16Obs, st *c16Stats) bool {
 		}
 	}
 	st.order = strings.Join(ord, ",")
+	// the slices the callbacks kept still hold exactly what they held during the callback
+	for _, b := range o.batches {
+		if b.reread == nil {
+			continue
+		}
+		now, bad := b.reread()
+		same := bad == "" && len(now) == len(b.tasks)
+		for i := 0; same && i < len(now); i++ {
+			same = now[i] == b.tasks[i]
+		}
+		st.keptChecked++
+		if !same {
+			c16Viol(m, "C16:batch-mutated-after-execute", desc, "the execute callback kept the slice it was handed (trigger %s): during the callback it held %v, after the scenario's last Wait it holds %v %s: the library wrote to a batch (or reused its backing array) after handing it to execute", b.trigger, b.tasks, now, bad)
+			return false
+		}
+	}
 	for _, b := range o.batches {
 		// bounds
 		switch cfg.Kind {
@@ -661,4 +683,5 @@ func c16CountStats(m *vk.M, st *c16Stats) {
 		m.Count("batches_by_"+k, int64(v))
 	}
 	m.Count("wait_task_pairs_checked", int64(st.waitsChecked))
+	m.Count("kept_batch_slices_reread_after_last_wait", int64(st.keptChecked))
 }
